@@ -56,7 +56,7 @@ CodeP(c) == <<"code", c.sid, c.idx>>
 CmtP(cid, part) == <<"cmt", cid, part>>
 
 (* ---- features of a code piece ---- *)
-StartsNew(c) == c # NoCode /\ c.idx = 1 /\ c.k \in {"table", "seq", "view", "set", "drop", "alter"}
+StartsNew(c) == c # NoCode /\ c.idx = 1 /\ c.k \in {"table", "seq", "view", "ext", "set", "drop", "alter"}
 IsSkip(c) == c # NoCode /\ c.idx = 1 /\ c.k \in {"go", "insert", "grant"}
 IsSet(c) == c # NoCode /\ c.idx = 1 /\ c.k = "set"
 EndsSemi(c) == c # NoCode /\ c.idx = c.n /\ c.k # "go"
